@@ -509,6 +509,18 @@ func ruleStateMachineSchemaCheck(c *core.Ctx) {
 		}
 		c.Check(nVersion > 0 && badInit == "", rule, "cpp reader constructor", d.Pos(), "version_ = VersionFromSchema(schema_read_)",
 			"a generated binary reader constructor does not pass the schema read from the stream to VersionFromSchema: a foreign stream is decoded as if it were its own ("+strings.TrimSpace(badInit)+")")
+		// writers: the header of a stream written for version v carries version v's schema in EVERY constructor
+		nW, badW := 0, ""
+		for _, s := range stringConstantsDeep(c, "internal/cpp/binary", "writeHeaderFile") {
+			if strings.Contains(s, "yardl::binary::BinaryWriter(") {
+				nW++
+				if !strings.Contains(s, "::SchemaFromVersion(version)") {
+					badW = s
+				}
+			}
+		}
+		c.Check(nW >= 1 && badW == "", rule, "cpp writer constructors pass SchemaFromVersion(version)", d.Pos(), fmt.Sprintf("%d writer constructor initialiser(s) hand SchemaFromVersion(version) to the BinaryWriter base", nW),
+			"a generated binary writer constructor does not pass SchemaFromVersion(version) to the BinaryWriter base ("+strings.TrimSpace(badW)+"): a stream written for an older version carries another version's schema in its header, so readers of that older version refuse it and the current reader decodes it with the wrong layout")
 		c.Check(nBase >= 1, rule, "cpp reader constructors found", d.Pos(), "the generated readers initialise their yardl::binary::BinaryReader base (which reads the header)", "no generated reader constructor initialises the BinaryReader base")
 	}
 	// VersionFromSchema body (helpers expanded in place)
